@@ -696,6 +696,10 @@ class Interp:
         elif nd.kind == "text":
             self.emit_text(b, nd.value)
         elif nd.kind == "attr":
+            if nd.uri and nd.uri != xpgen.XML_NS:
+                # class of a known deviation: an attribute node in a namespace copied on its own (no
+                # declaration for its prefix is generated)
+                self.flags["ns_attr_copied_alone"] = self.flags.get("ns_attr_copied_alone", 0) + 1
             self.emit_attr(b, self.node_name(nd), self.shown_src(nd), nd.value, copy=True)
         elif nd.kind == "comment":
             self.ev("C," + nd.value.encode("utf-8").hex())
@@ -720,6 +724,10 @@ class Interp:
         elif nd.kind == "text":
             self.emit_text(b, nd.value)
         elif nd.kind == "attr":
+            if nd.uri and nd.uri != xpgen.XML_NS:
+                # class of a known deviation: an attribute node in a namespace copied on its own (no
+                # declaration for its prefix is generated)
+                self.flags["ns_attr_copied_alone"] = self.flags.get("ns_attr_copied_alone", 0) + 1
             self.emit_attr(b, self.node_name(nd), self.shown_src(nd), nd.value, copy=True)
         elif nd.kind == "comment":
             self.ev("C," + nd.value.encode("utf-8").hex())
